@@ -181,6 +181,46 @@ def gen_equal_case(rng, idx):
     return {"idx": idx, "equal_size": True, "n": n, "r": r, "f": f, "loads": loads}
 
 
+def run_frontend_case(ctx, rng, idx):
+    """a calculation driven by the table: no running source above the allowed fraction when avoidable, at least one runs"""
+    from .. import plants, elec_common as E
+    from RunFeemsSim.machinery_calculation import MachineryCalculation
+    n_swb = int(rng.choice([1, 2, 3, 4]))
+    spec = plants.gen_electric_plant(rng, n_swb=n_swb, with_pti=False, with_storage=False, source_kinds=("genset", "generator"))
+    if not any(c["kind"] == "drive" for c in spec["electric"]):
+        spec["electric"].append(plants.gen_serial_spec(rng, "drive", "drive_x", spec["electric"][0]["swb"], 900.0))
+    f_pct = float(rng.choice([50.0, 80.0, 100.0]))
+    srcs = [c for c in spec["electric"] if c["kind"] in E.SOURCE_KINDS]
+    total = sum(c["rated"] for c in srcs)
+    n = int(rng.integers(1, 6))
+    P = [float(np.round(rng.uniform(0.0, 0.7) * total, 1)) for _ in range(n)]
+    where = {"case": {"kind": "frontend", "spec": spec, "P": P, "fraction": f_pct}}
+    ctx.count("frontend_switchboards", n_swb)
+    try:
+        plant = plants.Plant(spec)
+        mc = MachineryCalculation(feems_system=plant.system, maximum_allowed_power_source_load_percentage=f_pct)
+        mc.calculate_machinery_system_output_from_statistics(propulsion_power=np.array(P), frequency=np.full(n, 60.0), auxiliary_power_kw=0.0)
+    except Exception as e:
+        ctx.fail("predicate", "front-end-raises-" + core.error_class(e), f"{type(e).__name__}: {e}", where)
+        return
+    f = f_pct / 100.0
+    demand = np.zeros(n)
+    for c in spec["electric"]:
+        if c["kind"] in ("drive", "other_load"):
+            demand = demand + np.broadcast_to(np.asarray(plant.by_name[c["name"]].power_input, dtype=float), (n,))
+    for t in range(n):
+        running = [c for c in srcs if np.broadcast_to(plant.by_name[c["name"]].status, (n,))[t]]
+        if not running:
+            ctx.fail("predicate", "no-source-running", f"step {t}: no source runs", where)
+            continue
+        avoidable = total * f > demand[t] * (1 + 1e-9)
+        for c in running:
+            frac_ = float(np.broadcast_to(np.asarray(plant.by_name[c["name"]].power_output, dtype=float), (n,))[t]) / c["rated"]
+            if avoidable and frac_ > f * (1 + 1e-9):
+                ctx.fail("predicate", "source-above-allowed-fraction", f"step {t}: {c['name']} at {frac_:.4f} > {f} although the plant could carry {demand[t]} kW within it", where)
+    ctx.case_done(signature=("frontend", n_swb, tuple(P)))
+
+
 CORPUS = core.VERIF / "corpus" / "C15"
 
 
@@ -214,6 +254,8 @@ def run(ctx):
                 ctx.case_done(signature=(tuple(case["ratings"]), case["f"], L))
         if ci in (ncorp, ncorp + 1):
             ctx.samples.append(case)
+    for i in range(ctx.n(40, 800)):
+        run_frontend_case(ctx, ctx.rng, i)
     ctx.extra["corpus_cases"] = ncorp
 
 
